@@ -970,4 +970,5 @@ BUILTINS = {
     'classmethod': PyFunc(lambda interp, f: f, 'classmethod'),
     'property': PyFunc(lambda interp, f: f, 'property'),
     'bytes': PyFunc(lambda interp, *a: (_ for _ in ()).throw(Unsupported('bytes()')), 'bytes'),
+    'complex': _callable_type('complex'),
 }
